@@ -180,6 +180,7 @@ def run(repo, rep, tier):
       rep.check(re.search(pat, txt) is not None, 'R4/container', 'container guard: %s' % what, init.qualname, what, 'the series container does not enforce that %s' % what, init.loc())
   # R5 shared input rules
   tbrrules.tbr_aggregation(repo, rep, 'R5/analysis-data')
+  tbrrules.kwarg_subdict_rule(repo, rep, 'R5/analysis-data')
   for q in (CLS, 'tbr.TBR'):
     sub = type(rep)(rep.prop, rep.tier, rep.repo)
     c08.analyse_class(repo, sub, q)
@@ -187,4 +188,15 @@ def run(repo, rep, tier):
       if i.rule.startswith('R2/must-reset'):
         i.rule = 'R5/cache-invalidation'
         rep.instances.append(i)
+  from mmsa.props import c07
+  sub = type(rep)(rep.prop, rep.tier, rep.repo)
+  c07.r3_scenario(repo, sub)
+  tbrrules.distribution_rules(repo, sub, '')
+  for i in sub.instances:
+    if i.rule == 'R3/scenario':
+      i.rule = 'R5/scenario-branch'
+      rep.instances.append(i)
+    elif i.rule in ('R5/posterior-shape', 'R4/scale-sign'):
+      i.rule = 'R2/posterior-' + i.rule.split('/', 1)[1]
+      rep.instances.append(i)
   rep.assume('level in (0, 1) (documented), tails in {1, 2} (guard)')
